@@ -1016,6 +1016,55 @@ func ruleValidPatterns(c *Ctx) {
 		if n == 0 {
 			c.viol("(*rescache.Cache).forEachMatch", "only valid patterns are matched", "-", "no pattern list construction found")
 		}
+		// an invalid pattern is skipped, it does not end the scan: from the invalid edge of the test the
+		// loop over the list is always continued
+		for _, fn := range p.Repo {
+			if TopLevel(fn).Pkg == nil || TopLevel(fn).Pkg.Pkg.Name() != "rescache" {
+				continue
+			}
+			for _, b := range fn.Blocks {
+				i := blockIf(b)
+				if i == nil {
+					continue
+				}
+				v, neg := ssa.Value(i.Cond), false
+				if u, ok := v.(*ssa.UnOp); ok && u.Op == token.NOT {
+					v, neg = u.X, true
+				}
+				cl, ok := v.(*ssa.Call)
+				if !ok || calleeFunc(&cl.Call) != isValid {
+					continue
+				}
+				h := innermostLoopHeader(b)
+				if h == nil {
+					continue
+				}
+				c.inst(1)
+				inv := b.Succs[1]
+				if neg {
+					inv = b.Succs[0]
+				}
+				body := loopBody(h)
+				seen := map[*ssa.BasicBlock]bool{}
+				leaves := false
+				var dfs func(x *ssa.BasicBlock)
+				dfs = func(x *ssa.BasicBlock) {
+					if x == h || seen[x] {
+						return
+					}
+					seen[x] = true
+					if !body[x] {
+						leaves = true
+						return
+					}
+					for _, sx := range x.Succs {
+						dfs(sx)
+					}
+				}
+				dfs(inv)
+				c.check(!leaves, fnName(fn), "an invalid pattern is skipped: the scan of the list continues with the next pattern", p.InstrPos(i), "every path from the invalid edge returns to the loop head", "an invalid pattern ends the scan of the list: the valid patterns behind it are ignored (their resources are not re-fetched / their access not re-validated)")
+			}
+		}
 	}
 	if fn := p.Fn("(*rescache.Cache).handleSystemReset"); fn != nil {
 		fem := p.Method("rescache.Cache.forEachMatch")
@@ -1076,6 +1125,45 @@ func ruleValidPatterns(c *Ctx) {
 						target = "handleResetResource"
 					case cf != nil && cf == mAcc:
 						target = "handleResetAccess"
+					}
+				}
+				// collect first, visit later: the visitor only appends the match to a captured list; the
+				// handler called on the elements of that list is the target
+				if mc, isMC := stripConv(a).(*ssa.MakeClosure); isMC && target == "" {
+					for bi, bnd := range mc.Bindings {
+						cell, isAlloc := bnd.(*ssa.Alloc)
+						if !isAlloc || bi >= len(vf.FreeVars) {
+							continue
+						}
+						stores := false
+						for _, in := range instrsOf(vf) {
+							if st, ok := in.(*ssa.Store); ok && st.Addr == ssa.Value(vf.FreeVars[bi]) {
+								stores = true
+							}
+						}
+						if !stores {
+							continue
+						}
+						fromCell := func(v ssa.Value) bool {
+							u, ok := v.(*ssa.UnOp)
+							return ok && u.Op == token.MUL && u.X == ssa.Value(cell)
+						}
+						for _, g := range WithClosures(fn) {
+							for _, cl := range callsIn(g) {
+								cf := calleeFunc(cl.Common())
+								if cf == nil || (cf != mRes && cf != mAcc) {
+									continue
+								}
+								if dependsOn(callArgs(cl.Common())[0], fromCell, map[ssa.Value]bool{}, 0) {
+									nt := map[bool]string{true: "handleResetResource", false: "handleResetAccess"}[cf == mRes]
+									if target != "" && target != nt {
+										target = "both handlers"
+									} else {
+										target = nt
+									}
+								}
+							}
+						}
 					}
 				}
 			}
@@ -1409,6 +1497,52 @@ func ruleThrottle(c *Ctx) {
 				return false, false
 			})
 			c.check(g != nil, fnName(fn), "a throttle is created only with a positive limit", p.InstrPos(call), "dominated by limit > 0", "a zero-limit throttle queues every request forever")
+			// ... and with a positive limit it IS created: no further condition (an estimate of the fan-out, a
+			// count of matches) may let the governed requests go out unthrottled
+			fLimit, _ := fieldLoad(arg)
+			theCall := call
+			root := TopLevel(fn)
+			if fn.Parent() != nil {
+				root = fn
+			}
+			sp := &Spec{InlineHelpers: true}
+			sp.Classify = func(t *Tracer, fr *Frame, in ssa.Instruction) []Ev {
+				if in == ssa.Instruction(theCall) {
+					return []Ev{{Kind: "new-throttle", Stop: true}}
+				}
+				return nil
+			}
+			sp.Branch = func(t *Tracer, fr *Frame, i *ssa.If, dir bool) []Ev {
+				x, op, k, ok := cmpConst(i.Cond)
+				if !ok || k != 0 {
+					return nil
+				}
+				same := fr.Fn == theCall.Parent() && x == arg
+				if !same && fLimit != nil {
+					f1, _ := fieldLoad(t.Resolve(fr, x).V)
+					same = f1 == fLimit
+				}
+				if !same {
+					return nil
+				}
+				if (op == token.GTR && dir) || (op == token.LEQ && !dir) {
+					return []Ev{{Kind: "limit>0"}}
+				}
+				return nil
+			}
+			tr := runTrace(p, root, sp)
+			bad := ""
+			for _, path := range tr.Paths {
+				if hasKind(path, "limit>0") && !hasKind(path, "new-throttle") {
+					// a throttle handed in by the caller (t != nil) needs no new one: the limit test lies behind `t == nil`
+					bad = "the limit is positive and yet no throttle is created on this path: the governed requests go out unbounded: " + tr.FmtPath(path)
+				}
+			}
+			if tr.Trunc {
+				bad = "path budget exhausted"
+			}
+			c.inst(1)
+			c.check(bad == "", fnName(fn), "with a positive limit the throttle is created on every path", p.InstrPos(call), fmt.Sprintf("%d paths", len(tr.Paths)), bad)
 		}
 	}
 }
@@ -1577,4 +1711,50 @@ func ruleOneSubPerRID(c *Ctx) {
 	if n == 0 {
 		c.viol("server.wsConn.subs", "a subscription is registered under a resource ID only where the lookup of that ID found none", "-", "no registration found")
 	}
+}
+
+
+// innermostLoopHeader: the header of the innermost natural loop containing b.
+func innermostLoopHeader(b *ssa.BasicBlock) *ssa.BasicBlock {
+	var best *ssa.BasicBlock
+	for _, h := range b.Parent().Blocks {
+		if !h.Dominates(b) && h != b {
+			continue
+		}
+		if !loopBody(h)[b] {
+			continue
+		}
+		if best == nil || best.Dominates(h) {
+			best = h
+		}
+	}
+	return best
+}
+
+// loopBody: the blocks of the natural loop(s) with header h (empty when h is
+// no loop header).
+func loopBody(h *ssa.BasicBlock) map[*ssa.BasicBlock]bool {
+	body := map[*ssa.BasicBlock]bool{}
+	var work []*ssa.BasicBlock
+	for _, pr := range h.Preds {
+		if h.Dominates(pr) || pr == h {
+			work = append(work, pr)
+		}
+	}
+	if len(work) == 0 {
+		return body
+	}
+	body[h] = true
+	for len(work) > 0 {
+		x := work[len(work)-1]
+		work = work[:len(work)-1]
+		if body[x] {
+			continue
+		}
+		body[x] = true
+		for _, pr := range x.Preds {
+			work = append(work, pr)
+		}
+	}
+	return body
 }
